@@ -140,3 +140,61 @@ Proof.
   exists o2, e1. f_equal. f_equal.
   rewrite !zlen_app. change (zlen [62]) with 1. change (zlen [13; 10]) with 2. lia.
 Qed.
+
+(* ---------- a stream of records with CR LF line ends *)
+
+Definition fmtc (r : list byte * list byte) : list byte := crlf (fmt r).
+
+Lemma crlf_concat rs : crlf (concat (map fmt rs)) = concat (map fmtc rs).
+Proof. induction rs as [|r t IH]; [reflexivity|]. cbn [map concat]. now rewrite crlf_app, IH. Qed.
+
+Lemma crlf_format_head d p : exists t, crlf (fasta_format d p) = 62 :: t.
+Proof.
+  unfold fasta_format. rewrite crlf_app. change (crlf [62]) with [62]. cbn [app]. eexists; reflexivity.
+Qed.
+
+Lemma stream_stops_crlf rs : stops (concat (map fmtc rs)).
+Proof.
+  destruct rs as [|[d p] t]; [now left|]. right. cbn [map concat].
+  change (fmtc (d, p)) with (crlf (fasta_format d p)).
+  destruct (crlf_format_head d p) as [x ->]. cbn [app]. eexists; reflexivity.
+Qed.
+
+Lemma scan_stream_crlf recs : forall acc o e a k fuel,
+  Forall rec_ok recs -> (length recs < fuel)%nat ->
+  exists s', scan_loop fuel fasta_parser acc (mkst (concat (map fmtc recs)) o e a k) =
+             (Ok (rev acc ++ recs, true), s').
+Proof.
+  induction recs as [|r rs IH]; intros acc o e a k fuel Hok Hf; (destruct fuel as [|f]; [lia|]); cbn [scan_loop].
+  - cbn [map concat]. destruct (at_end_nil o e a k) as [s' Hs].
+    rewrite (bind_ok _ _ _ true _ Hs).
+    eexists. unfold ret. now rewrite app_nil_r.
+  - inversion Hok as [|? ? Hr Hrs]; subst. cbn [map concat].
+    destruct r as [d p]. change (fmtc (d, p)) with (crlf (fasta_format d p)).
+    assert (HA : exists o1 e1, at_end (mkst (crlf (fasta_format d p) ++ concat (map fmtc rs)) o e a k) =
+                 (Ok false, mkst (crlf (fasta_format d p) ++ concat (map fmtc rs)) o1 e1 a k)).
+    { destruct (crlf_format_head d p) as [x ->]. cbn [app]. apply at_end_gt. }
+    destruct HA as [o1 [e1 HA]]. rewrite (bind_ok _ _ _ false _ HA).
+    destruct (fasta_record_crlf d p (concat (map fmtc rs)) o1 e1 a k Hr (stream_stops_crlf rs)) as [o' [e' HR]].
+    rewrite (bind_ok _ _ _ (Some (d, p), EOther) _ (try_ok _ _ _ _ HR)).
+    destruct (IH ((d, p) :: acc) o' e' (a + zlen (crlf (fasta_format d p))) k f Hrs ltac:(cbn [length] in Hf; lia)) as [s' Hs'].
+    exists s'. rewrite Hs'. cbn [rev]. now rewrite <- app_assoc.
+Qed.
+
+Lemma stream_length_crlf recs : (length recs <= length (concat (map fmtc recs)))%nat.
+Proof.
+  induction recs as [|[d p] t IH]; [cbn; lia|]. cbn [map concat length]. rewrite app_length.
+  change (fmtc (d, p)) with (crlf (fasta_format d p)).
+  destruct (crlf_format_head d p) as [x ->]. cbn [length]. lia.
+Qed.
+
+(* N written records, every LF of the stream turned into CR LF: the same N
+   records in order, clean end *)
+Theorem fasta_stream_crlf recs : Forall rec_ok recs ->
+  scan_fasta (crlf (concat (map fmt recs))) = Ok (recs, true).
+Proof.
+  intros H. rewrite crlf_concat. unfold scan_fasta, st_of.
+  destruct (scan_stream_crlf recs [] 0 None 0 [] (S (length (concat (map fmtc recs)))) H) as [s' Hs].
+  - pose proof (stream_length_crlf recs). lia.
+  - rewrite Hs. reflexivity.
+Qed.
